@@ -19,6 +19,10 @@ variables
   ended = FALSE,
   version = 0,           \* number of published commits
   panicked = FALSE,
+  stmu = NoProc,         \* mutex of the one change stream
+  created = FALSE,       \* Engine.Watch has returned the stream (it is created and registered in one step)
+  registered = FALSE,    \* the stream is in engine.streams
+  sclosed = FALSE,       \* Stream.closed
   calls = [p \in Procs |-> 0];
 
 define {
@@ -26,6 +30,8 @@ define {
   NoPanic == ~panicked
   \* engine.txn set => its creator (or the session user) holds the token
   TxnImpliesHeld == etxn # NoProc => held[etxn]
+  \* a stream that is closed is no longer registered with the engine (Stream.Close unregisters, Engine.Close drops all)
+  ClosedUnregistered == (sclosed /\ stmu = NoProc /\ emu = NoProc) => (~registered \/ ~alive)
 }
 
 macro Lock(m) { await m = NoProc; m := self; }
@@ -83,7 +89,7 @@ process (P \in Procs)
 {
   loop: while (calls[self] < MaxCalls) {
     calls[self] := calls[self] + 1;
-    with (k \in {"direct", "directSess", "auto", "autoSess", "sStart", "sCommit", "sAbort", "close"}) { kind := k; };
+    with (k \in {"direct", "directSess", "auto", "autoSess", "sStart", "sCommit", "sAbort", "sEnd", "watch", "snext", "sclose", "close"}) { kind := k; };
   disp:
     if (kind = "direct" \/ kind = "directSess") {
       \* Collection.Drop / CreateIndex ...: Begin; defer Abort; op; Commit
@@ -131,10 +137,49 @@ process (P \in Procs)
        else { mytxn := stxn;
   sa2:   call Abort();
   sa3:   stxn := NoProc; Unlock(smu); };
-    } else {
-      \* Engine.Close
+    } else if (kind = "sEnd") {
+      \* Session.EndSession: abort the open transaction under the session mutex
+      Lock(smu);
+  se1: if (ended) { Unlock(smu); }
+       else if (stxn = NoProc) { ended := TRUE; Unlock(smu); }
+       else { mytxn := stxn;
+  se2:   call Abort();
+  se3:   stxn := NoProc; ended := TRUE; Unlock(smu); };
+    } else if (kind = "watch") {
+      \* Engine.Watch: register the stream under the engine mutex
       Lock(emu);
-  cl1: if (~alive) { Unlock(emu); } else { alive := FALSE; Unlock(emu); };
+  w1: if (alive /\ ~created) { created := TRUE; registered := TRUE; };
+      Unlock(emu);
+    } else if (kind = "snext") {
+      \* Stream.next: stream mutex, then the engine mutex to read the change log
+      if (created) {
+      Lock(stmu);
+  n1: if (sclosed) { Unlock(stmu); }
+      else {
+        Lock(emu);
+  n2:   Unlock(emu);
+  n3:   Unlock(stmu); };
+      };
+    } else if (kind = "sclose") {
+      \* Stream.Close: stream mutex, then cancel() takes the engine mutex to unregister
+      if (created) {
+      Lock(stmu);
+  k1: if (sclosed) { Unlock(stmu); }
+      else {
+        Lock(emu);
+  k2:   registered := FALSE; Unlock(emu);
+  k3:   sclosed := TRUE; Unlock(stmu); };
+      };
+    } else {
+      \* Engine.Close: kill under the engine mutex, close the streams after releasing it
+      Lock(emu);
+  cl1: if (~alive) { Unlock(emu); }
+       else {
+         alive := FALSE; t := IF registered THEN self ELSE NoProc; Unlock(emu);
+  cl2:   if (t # NoProc) {
+           Lock(stmu);
+  cl3:     sclosed := TRUE; Unlock(stmu); };
+       };
     };
   };
 }
@@ -142,7 +187,7 @@ process (P \in Procs)
 \* BEGIN TRANSLATION
 CONSTANT defaultInitValue
 VARIABLES pc, emu, smu, avail, held, etxn, alive, stxn, starting, ended, 
-          version, panicked, calls, stack
+          version, panicked, stmu, created, registered, sclosed, calls, stack
 
 (* define statement *)
 Conservation == avail + Cardinality({p \in Procs : held[p]}) = 1
@@ -150,11 +195,13 @@ NoPanic == ~panicked
 
 TxnImpliesHeld == etxn # NoProc => held[etxn]
 
+ClosedUnregistered == (sclosed /\ stmu = NoProc /\ emu = NoProc) => (~registered \/ ~alive)
+
 VARIABLES withSess, nested, got, ok, mytxn, kind, t
 
 vars == << pc, emu, smu, avail, held, etxn, alive, stxn, starting, ended, 
-           version, panicked, calls, stack, withSess, nested, got, ok, mytxn, 
-           kind, t >>
+           version, panicked, stmu, created, registered, sclosed, calls, 
+           stack, withSess, nested, got, ok, mytxn, kind, t >>
 
 ProcSet == (Procs)
 
@@ -170,6 +217,10 @@ Init == (* Global variables *)
         /\ ended = FALSE
         /\ version = 0
         /\ panicked = FALSE
+        /\ stmu = NoProc
+        /\ created = FALSE
+        /\ registered = FALSE
+        /\ sclosed = FALSE
         /\ calls = [p \in Procs |-> 0]
         (* Procedure Begin *)
         /\ withSess = [ self \in ProcSet |-> defaultInitValue]
@@ -191,18 +242,20 @@ b0(self) == /\ pc[self] = "b0"
                   ELSE /\ pc' = [pc EXCEPT ![self] = "b1"]
                        /\ smu' = smu
             /\ UNCHANGED << emu, avail, held, etxn, alive, stxn, starting, 
-                            ended, version, panicked, calls, stack, withSess, 
+                            ended, version, panicked, stmu, created, 
+                            registered, sclosed, calls, stack, withSess, 
                             nested, got, ok, mytxn, kind, t >>
 
 b0a(self) == /\ pc[self] = "b0a"
              /\ nested' = [nested EXCEPT ![self] = (stxn # NoProc)]
              /\ Assert(smu = self, 
-                       "Failure of assertion at line 32, column 19 of macro called at line 41, column 36.")
+                       "Failure of assertion at line 38, column 19 of macro called at line 47, column 36.")
              /\ smu' = NoProc
              /\ pc' = [pc EXCEPT ![self] = "b0b"]
              /\ UNCHANGED << emu, avail, held, etxn, alive, stxn, starting, 
-                             ended, version, panicked, calls, stack, withSess, 
-                             got, ok, mytxn, kind, t >>
+                             ended, version, panicked, stmu, created, 
+                             registered, sclosed, calls, stack, withSess, got, 
+                             ok, mytxn, kind, t >>
 
 b0b(self) == /\ pc[self] = "b0b"
              /\ IF nested[self]
@@ -215,21 +268,22 @@ b0b(self) == /\ pc[self] = "b0b"
                    ELSE /\ pc' = [pc EXCEPT ![self] = "b1"]
                         /\ UNCHANGED << stack, withSess, nested, got, ok >>
              /\ UNCHANGED << emu, smu, avail, held, etxn, alive, stxn, 
-                             starting, ended, version, panicked, calls, mytxn, 
-                             kind, t >>
+                             starting, ended, version, panicked, stmu, created, 
+                             registered, sclosed, calls, mytxn, kind, t >>
 
 b1(self) == /\ pc[self] = "b1"
             /\ emu = NoProc
             /\ emu' = self
             /\ pc' = [pc EXCEPT ![self] = "b2"]
             /\ UNCHANGED << smu, avail, held, etxn, alive, stxn, starting, 
-                            ended, version, panicked, calls, stack, withSess, 
+                            ended, version, panicked, stmu, created, 
+                            registered, sclosed, calls, stack, withSess, 
                             nested, got, ok, mytxn, kind, t >>
 
 b2(self) == /\ pc[self] = "b2"
             /\ IF ~alive
                   THEN /\ Assert(emu = self, 
-                                 "Failure of assertion at line 32, column 19 of macro called at line 45, column 21.")
+                                 "Failure of assertion at line 38, column 19 of macro called at line 51, column 21.")
                        /\ emu' = NoProc
                        /\ ok' = [ok EXCEPT ![self] = FALSE]
                        /\ pc' = [pc EXCEPT ![self] = Head(stack[self]).pc]
@@ -240,7 +294,8 @@ b2(self) == /\ pc[self] = "b2"
                   ELSE /\ pc' = [pc EXCEPT ![self] = "b3"]
                        /\ UNCHANGED << emu, stack, withSess, nested, got, ok >>
             /\ UNCHANGED << smu, avail, held, etxn, alive, stxn, starting, 
-                            ended, version, panicked, calls, mytxn, kind, t >>
+                            ended, version, panicked, stmu, created, 
+                            registered, sclosed, calls, mytxn, kind, t >>
 
 b3(self) == /\ pc[self] = "b3"
             /\ IF ~FixBeginOrder /\ withSess[self]
@@ -250,23 +305,25 @@ b3(self) == /\ pc[self] = "b3"
                   ELSE /\ pc' = [pc EXCEPT ![self] = "b4"]
                        /\ smu' = smu
             /\ UNCHANGED << emu, avail, held, etxn, alive, stxn, starting, 
-                            ended, version, panicked, calls, stack, withSess, 
+                            ended, version, panicked, stmu, created, 
+                            registered, sclosed, calls, stack, withSess, 
                             nested, got, ok, mytxn, kind, t >>
 
 b3a(self) == /\ pc[self] = "b3a"
              /\ nested' = [nested EXCEPT ![self] = (stxn # NoProc)]
              /\ Assert(smu = self, 
-                       "Failure of assertion at line 32, column 19 of macro called at line 48, column 36.")
+                       "Failure of assertion at line 38, column 19 of macro called at line 54, column 36.")
              /\ smu' = NoProc
              /\ pc' = [pc EXCEPT ![self] = "b3b"]
              /\ UNCHANGED << emu, avail, held, etxn, alive, stxn, starting, 
-                             ended, version, panicked, calls, stack, withSess, 
-                             got, ok, mytxn, kind, t >>
+                             ended, version, panicked, stmu, created, 
+                             registered, sclosed, calls, stack, withSess, got, 
+                             ok, mytxn, kind, t >>
 
 b3b(self) == /\ pc[self] = "b3b"
              /\ IF nested[self]
                    THEN /\ Assert(emu = self, 
-                                  "Failure of assertion at line 32, column 19 of macro called at line 49, column 23.")
+                                  "Failure of assertion at line 38, column 19 of macro called at line 55, column 23.")
                         /\ emu' = NoProc
                         /\ ok' = [ok EXCEPT ![self] = FALSE]
                         /\ pc' = [pc EXCEPT ![self] = Head(stack[self]).pc]
@@ -277,15 +334,17 @@ b3b(self) == /\ pc[self] = "b3b"
                    ELSE /\ pc' = [pc EXCEPT ![self] = "b4"]
                         /\ UNCHANGED << emu, stack, withSess, nested, got, ok >>
              /\ UNCHANGED << smu, avail, held, etxn, alive, stxn, starting, 
-                             ended, version, panicked, calls, mytxn, kind, t >>
+                             ended, version, panicked, stmu, created, 
+                             registered, sclosed, calls, mytxn, kind, t >>
 
 b4(self) == /\ pc[self] = "b4"
             /\ Assert(emu = self, 
-                      "Failure of assertion at line 32, column 19 of macro called at line 51, column 7.")
+                      "Failure of assertion at line 38, column 19 of macro called at line 57, column 7.")
             /\ emu' = NoProc
             /\ pc' = [pc EXCEPT ![self] = "b5"]
             /\ UNCHANGED << smu, avail, held, etxn, alive, stxn, starting, 
-                            ended, version, panicked, calls, stack, withSess, 
+                            ended, version, panicked, stmu, created, 
+                            registered, sclosed, calls, stack, withSess, 
                             nested, got, ok, mytxn, kind, t >>
 
 b5(self) == /\ pc[self] = "b5"
@@ -300,21 +359,23 @@ b5(self) == /\ pc[self] = "b5"
                   /\ UNCHANGED <<avail, held>>
             /\ pc' = [pc EXCEPT ![self] = "b6"]
             /\ UNCHANGED << emu, smu, etxn, alive, stxn, starting, ended, 
-                            version, panicked, calls, stack, withSess, nested, 
-                            ok, mytxn, kind, t >>
+                            version, panicked, stmu, created, registered, 
+                            sclosed, calls, stack, withSess, nested, ok, mytxn, 
+                            kind, t >>
 
 b6(self) == /\ pc[self] = "b6"
             /\ emu = NoProc
             /\ emu' = self
             /\ pc' = [pc EXCEPT ![self] = "b7"]
             /\ UNCHANGED << smu, avail, held, etxn, alive, stxn, starting, 
-                            ended, version, panicked, calls, stack, withSess, 
+                            ended, version, panicked, stmu, created, 
+                            registered, sclosed, calls, stack, withSess, 
                             nested, got, ok, mytxn, kind, t >>
 
 b7(self) == /\ pc[self] = "b7"
             /\ IF ~got[self]
                   THEN /\ Assert(emu = self, 
-                                 "Failure of assertion at line 32, column 19 of macro called at line 56, column 19.")
+                                 "Failure of assertion at line 38, column 19 of macro called at line 62, column 19.")
                        /\ emu' = NoProc
                        /\ ok' = [ok EXCEPT ![self] = FALSE]
                        /\ pc' = [pc EXCEPT ![self] = Head(stack[self]).pc]
@@ -332,7 +393,7 @@ b7(self) == /\ pc[self] = "b7"
                                              /\ held' = [held EXCEPT ![mytxn'[self]] = FALSE]
                                              /\ UNCHANGED panicked
                                   /\ Assert(emu = self, 
-                                            "Failure of assertion at line 32, column 19 of macro called at line 57, column 52.")
+                                            "Failure of assertion at line 38, column 19 of macro called at line 63, column 52.")
                                   /\ emu' = NoProc
                                   /\ ok' = [ok EXCEPT ![self] = FALSE]
                                   /\ pc' = [pc EXCEPT ![self] = Head(stack[self]).pc]
@@ -351,7 +412,7 @@ b7(self) == /\ pc[self] = "b7"
                                                         /\ held' = [held EXCEPT ![mytxn'[self]] = FALSE]
                                                         /\ UNCHANGED panicked
                                              /\ Assert(emu = self, 
-                                                       "Failure of assertion at line 32, column 19 of macro called at line 58, column 59.")
+                                                       "Failure of assertion at line 38, column 19 of macro called at line 64, column 59.")
                                              /\ emu' = NoProc
                                              /\ ok' = [ok EXCEPT ![self] = FALSE]
                                              /\ pc' = [pc EXCEPT ![self] = Head(stack[self]).pc]
@@ -363,7 +424,7 @@ b7(self) == /\ pc[self] = "b7"
                                         ELSE /\ etxn' = self
                                              /\ mytxn' = [mytxn EXCEPT ![self] = self]
                                              /\ Assert(emu = self, 
-                                                       "Failure of assertion at line 32, column 19 of macro called at line 59, column 43.")
+                                                       "Failure of assertion at line 38, column 19 of macro called at line 65, column 43.")
                                              /\ emu' = NoProc
                                              /\ ok' = [ok EXCEPT ![self] = TRUE]
                                              /\ pc' = [pc EXCEPT ![self] = Head(stack[self]).pc]
@@ -373,8 +434,8 @@ b7(self) == /\ pc[self] = "b7"
                                              /\ stack' = [stack EXCEPT ![self] = Tail(stack[self])]
                                              /\ UNCHANGED << avail, held, 
                                                              panicked >>
-            /\ UNCHANGED << smu, alive, stxn, starting, ended, version, calls, 
-                            kind, t >>
+            /\ UNCHANGED << smu, alive, stxn, starting, ended, version, stmu, 
+                            created, registered, sclosed, calls, kind, t >>
 
 Begin(self) == b0(self) \/ b0a(self) \/ b0b(self) \/ b1(self) \/ b2(self)
                   \/ b3(self) \/ b3a(self) \/ b3b(self) \/ b4(self)
@@ -385,20 +446,21 @@ c1(self) == /\ pc[self] = "c1"
             /\ emu' = self
             /\ pc' = [pc EXCEPT ![self] = "c2"]
             /\ UNCHANGED << smu, avail, held, etxn, alive, stxn, starting, 
-                            ended, version, panicked, calls, stack, withSess, 
+                            ended, version, panicked, stmu, created, 
+                            registered, sclosed, calls, stack, withSess, 
                             nested, got, ok, mytxn, kind, t >>
 
 c2(self) == /\ pc[self] = "c2"
             /\ IF ~alive
                   THEN /\ Assert(emu = self, 
-                                 "Failure of assertion at line 32, column 19 of macro called at line 66, column 21.")
+                                 "Failure of assertion at line 38, column 19 of macro called at line 72, column 21.")
                        /\ emu' = NoProc
                        /\ ok' = [ok EXCEPT ![self] = FALSE]
                        /\ pc' = [pc EXCEPT ![self] = Head(stack[self]).pc]
                        /\ stack' = [stack EXCEPT ![self] = Tail(stack[self])]
                   ELSE /\ IF etxn = NoProc \/ etxn # mytxn[self]
                              THEN /\ Assert(emu = self, 
-                                            "Failure of assertion at line 32, column 19 of macro called at line 67, column 49.")
+                                            "Failure of assertion at line 38, column 19 of macro called at line 73, column 49.")
                                   /\ emu' = NoProc
                                   /\ ok' = [ok EXCEPT ![self] = FALSE]
                                   /\ pc' = [pc EXCEPT ![self] = Head(stack[self]).pc]
@@ -406,8 +468,9 @@ c2(self) == /\ pc[self] = "c2"
                              ELSE /\ pc' = [pc EXCEPT ![self] = "c3"]
                                   /\ UNCHANGED << emu, stack, ok >>
             /\ UNCHANGED << smu, avail, held, etxn, alive, stxn, starting, 
-                            ended, version, panicked, calls, withSess, nested, 
-                            got, mytxn, kind, t >>
+                            ended, version, panicked, stmu, created, 
+                            registered, sclosed, calls, withSess, nested, got, 
+                            mytxn, kind, t >>
 
 c3(self) == /\ pc[self] = "c3"
             /\ etxn' = NoProc
@@ -417,8 +480,9 @@ c3(self) == /\ pc[self] = "c3"
                   /\ UNCHANGED version
             /\ pc' = [pc EXCEPT ![self] = "c4"]
             /\ UNCHANGED << emu, smu, avail, held, alive, stxn, starting, 
-                            ended, panicked, calls, stack, withSess, nested, 
-                            got, mytxn, kind, t >>
+                            ended, panicked, stmu, created, registered, 
+                            sclosed, calls, stack, withSess, nested, got, 
+                            mytxn, kind, t >>
 
 c4(self) == /\ pc[self] = "c4"
             /\ IF avail = 1
@@ -428,12 +492,13 @@ c4(self) == /\ pc[self] = "c4"
                        /\ held' = [held EXCEPT ![mytxn[self]] = FALSE]
                        /\ UNCHANGED panicked
             /\ Assert(emu = self, 
-                      "Failure of assertion at line 32, column 19 of macro called at line 70, column 18.")
+                      "Failure of assertion at line 38, column 19 of macro called at line 76, column 18.")
             /\ emu' = NoProc
             /\ pc' = [pc EXCEPT ![self] = Head(stack[self]).pc]
             /\ stack' = [stack EXCEPT ![self] = Tail(stack[self])]
             /\ UNCHANGED << smu, etxn, alive, stxn, starting, ended, version, 
-                            calls, withSess, nested, got, ok, mytxn, kind, t >>
+                            stmu, created, registered, sclosed, calls, 
+                            withSess, nested, got, ok, mytxn, kind, t >>
 
 Commit(self) == c1(self) \/ c2(self) \/ c3(self) \/ c4(self)
 
@@ -442,20 +507,21 @@ a1(self) == /\ pc[self] = "a1"
             /\ emu' = self
             /\ pc' = [pc EXCEPT ![self] = "a2"]
             /\ UNCHANGED << smu, avail, held, etxn, alive, stxn, starting, 
-                            ended, version, panicked, calls, stack, withSess, 
+                            ended, version, panicked, stmu, created, 
+                            registered, sclosed, calls, stack, withSess, 
                             nested, got, ok, mytxn, kind, t >>
 
 a2(self) == /\ pc[self] = "a2"
             /\ IF ~alive
                   THEN /\ Assert(emu = self, 
-                                 "Failure of assertion at line 32, column 19 of macro called at line 76, column 21.")
+                                 "Failure of assertion at line 38, column 19 of macro called at line 82, column 21.")
                        /\ emu' = NoProc
                        /\ pc' = [pc EXCEPT ![self] = Head(stack[self]).pc]
                        /\ stack' = [stack EXCEPT ![self] = Tail(stack[self])]
                        /\ UNCHANGED << avail, held, etxn, panicked >>
                   ELSE /\ IF etxn = NoProc \/ etxn # mytxn[self]
                              THEN /\ Assert(emu = self, 
-                                            "Failure of assertion at line 32, column 19 of macro called at line 77, column 49.")
+                                            "Failure of assertion at line 38, column 19 of macro called at line 83, column 49.")
                                   /\ emu' = NoProc
                                   /\ pc' = [pc EXCEPT ![self] = Head(stack[self]).pc]
                                   /\ stack' = [stack EXCEPT ![self] = Tail(stack[self])]
@@ -468,26 +534,28 @@ a2(self) == /\ pc[self] = "a2"
                                              /\ held' = [held EXCEPT ![mytxn[self]] = FALSE]
                                              /\ UNCHANGED panicked
                                   /\ Assert(emu = self, 
-                                            "Failure of assertion at line 32, column 19 of macro called at line 78, column 41.")
+                                            "Failure of assertion at line 38, column 19 of macro called at line 84, column 41.")
                                   /\ emu' = NoProc
                                   /\ pc' = [pc EXCEPT ![self] = Head(stack[self]).pc]
                                   /\ stack' = [stack EXCEPT ![self] = Tail(stack[self])]
-            /\ UNCHANGED << smu, alive, stxn, starting, ended, version, calls, 
-                            withSess, nested, got, ok, mytxn, kind, t >>
+            /\ UNCHANGED << smu, alive, stxn, starting, ended, version, stmu, 
+                            created, registered, sclosed, calls, withSess, 
+                            nested, got, ok, mytxn, kind, t >>
 
 Abort(self) == a1(self) \/ a2(self)
 
 loop(self) == /\ pc[self] = "loop"
               /\ IF calls[self] < MaxCalls
                     THEN /\ calls' = [calls EXCEPT ![self] = calls[self] + 1]
-                         /\ \E k \in {"direct", "directSess", "auto", "autoSess", "sStart", "sCommit", "sAbort", "close"}:
+                         /\ \E k \in {"direct", "directSess", "auto", "autoSess", "sStart", "sCommit", "sAbort", "sEnd", "watch", "snext", "sclose", "close"}:
                               kind' = [kind EXCEPT ![self] = k]
                          /\ pc' = [pc EXCEPT ![self] = "disp"]
                     ELSE /\ pc' = [pc EXCEPT ![self] = "Done"]
                          /\ UNCHANGED << calls, kind >>
               /\ UNCHANGED << emu, smu, avail, held, etxn, alive, stxn, 
-                              starting, ended, version, panicked, stack, 
-                              withSess, nested, got, ok, mytxn, t >>
+                              starting, ended, version, panicked, stmu, 
+                              created, registered, sclosed, stack, withSess, 
+                              nested, got, ok, mytxn, t >>
 
 disp(self) == /\ pc[self] = "disp"
               /\ IF kind[self] = "direct" \/ kind[self] = "directSess"
@@ -501,7 +569,7 @@ disp(self) == /\ pc[self] = "disp"
                          /\ nested' = [nested EXCEPT ![self] = FALSE]
                          /\ got' = [got EXCEPT ![self] = FALSE]
                          /\ pc' = [pc EXCEPT ![self] = "b0"]
-                         /\ UNCHANGED << emu, smu, t >>
+                         /\ UNCHANGED << emu, smu, stmu, t >>
                     ELSE /\ IF kind[self] = "auto" \/ kind[self] = "autoSess"
                                THEN /\ IF kind[self] = "autoSess"
                                           THEN /\ smu = NoProc
@@ -511,30 +579,61 @@ disp(self) == /\ pc[self] = "disp"
                                           ELSE /\ t' = [t EXCEPT ![self] = NoProc]
                                                /\ pc' = [pc EXCEPT ![self] = "u1"]
                                                /\ smu' = smu
-                                    /\ emu' = emu
+                                    /\ UNCHANGED << emu, stmu >>
                                ELSE /\ IF kind[self] = "sStart"
                                           THEN /\ smu = NoProc
                                                /\ smu' = self
                                                /\ pc' = [pc EXCEPT ![self] = "s1"]
-                                               /\ emu' = emu
+                                               /\ UNCHANGED << emu, stmu >>
                                           ELSE /\ IF kind[self] = "sCommit"
                                                      THEN /\ smu = NoProc
                                                           /\ smu' = self
                                                           /\ pc' = [pc EXCEPT ![self] = "sc1"]
-                                                          /\ emu' = emu
+                                                          /\ UNCHANGED << emu, 
+                                                                          stmu >>
                                                      ELSE /\ IF kind[self] = "sAbort"
                                                                 THEN /\ smu = NoProc
                                                                      /\ smu' = self
                                                                      /\ pc' = [pc EXCEPT ![self] = "sa1"]
-                                                                     /\ emu' = emu
-                                                                ELSE /\ emu = NoProc
-                                                                     /\ emu' = self
-                                                                     /\ pc' = [pc EXCEPT ![self] = "cl1"]
-                                                                     /\ smu' = smu
+                                                                     /\ UNCHANGED << emu, 
+                                                                                     stmu >>
+                                                                ELSE /\ IF kind[self] = "sEnd"
+                                                                           THEN /\ smu = NoProc
+                                                                                /\ smu' = self
+                                                                                /\ pc' = [pc EXCEPT ![self] = "se1"]
+                                                                                /\ UNCHANGED << emu, 
+                                                                                                stmu >>
+                                                                           ELSE /\ IF kind[self] = "watch"
+                                                                                      THEN /\ emu = NoProc
+                                                                                           /\ emu' = self
+                                                                                           /\ pc' = [pc EXCEPT ![self] = "w1"]
+                                                                                           /\ stmu' = stmu
+                                                                                      ELSE /\ IF kind[self] = "snext"
+                                                                                                 THEN /\ IF created
+                                                                                                            THEN /\ stmu = NoProc
+                                                                                                                 /\ stmu' = self
+                                                                                                                 /\ pc' = [pc EXCEPT ![self] = "n1"]
+                                                                                                            ELSE /\ pc' = [pc EXCEPT ![self] = "loop"]
+                                                                                                                 /\ stmu' = stmu
+                                                                                                      /\ emu' = emu
+                                                                                                 ELSE /\ IF kind[self] = "sclose"
+                                                                                                            THEN /\ IF created
+                                                                                                                       THEN /\ stmu = NoProc
+                                                                                                                            /\ stmu' = self
+                                                                                                                            /\ pc' = [pc EXCEPT ![self] = "k1"]
+                                                                                                                       ELSE /\ pc' = [pc EXCEPT ![self] = "loop"]
+                                                                                                                            /\ stmu' = stmu
+                                                                                                                 /\ emu' = emu
+                                                                                                            ELSE /\ emu = NoProc
+                                                                                                                 /\ emu' = self
+                                                                                                                 /\ pc' = [pc EXCEPT ![self] = "cl1"]
+                                                                                                                 /\ stmu' = stmu
+                                                                                /\ smu' = smu
                                     /\ t' = t
                          /\ UNCHANGED << stack, withSess, nested, got >>
               /\ UNCHANGED << avail, held, etxn, alive, stxn, starting, ended, 
-                              version, panicked, calls, ok, mytxn, kind >>
+                              version, panicked, created, registered, sclosed, 
+                              calls, ok, mytxn, kind >>
 
 d1(self) == /\ pc[self] = "d1"
             /\ IF ok[self]
@@ -548,8 +647,9 @@ d1(self) == /\ pc[self] = "d1"
                   ELSE /\ pc' = [pc EXCEPT ![self] = "loop"]
                        /\ stack' = stack
             /\ UNCHANGED << emu, smu, avail, held, etxn, alive, stxn, starting, 
-                            ended, version, panicked, calls, withSess, nested, 
-                            got, ok, mytxn, kind, t >>
+                            ended, version, panicked, stmu, created, 
+                            registered, sclosed, calls, withSess, nested, got, 
+                            ok, mytxn, kind, t >>
 
 d2(self) == /\ pc[self] = "d2"
             /\ stack' = [stack EXCEPT ![self] = << [ procedure |->  "Abort",
@@ -557,8 +657,9 @@ d2(self) == /\ pc[self] = "d2"
                                                  \o stack[self]]
             /\ pc' = [pc EXCEPT ![self] = "a1"]
             /\ UNCHANGED << emu, smu, avail, held, etxn, alive, stxn, starting, 
-                            ended, version, panicked, calls, withSess, nested, 
-                            got, ok, mytxn, kind, t >>
+                            ended, version, panicked, stmu, created, 
+                            registered, sclosed, calls, withSess, nested, got, 
+                            ok, mytxn, kind, t >>
 
 u1(self) == /\ pc[self] = "u1"
             /\ IF t[self] = NoProc
@@ -575,8 +676,8 @@ u1(self) == /\ pc[self] = "u1"
                   ELSE /\ pc' = [pc EXCEPT ![self] = "loop"]
                        /\ UNCHANGED << stack, withSess, nested, got >>
             /\ UNCHANGED << emu, smu, avail, held, etxn, alive, stxn, starting, 
-                            ended, version, panicked, calls, ok, mytxn, kind, 
-                            t >>
+                            ended, version, panicked, stmu, created, 
+                            registered, sclosed, calls, ok, mytxn, kind, t >>
 
 u2(self) == /\ pc[self] = "u2"
             /\ IF ok[self]
@@ -590,8 +691,9 @@ u2(self) == /\ pc[self] = "u2"
                   ELSE /\ pc' = [pc EXCEPT ![self] = "loop"]
                        /\ stack' = stack
             /\ UNCHANGED << emu, smu, avail, held, etxn, alive, stxn, starting, 
-                            ended, version, panicked, calls, withSess, nested, 
-                            got, ok, mytxn, kind, t >>
+                            ended, version, panicked, stmu, created, 
+                            registered, sclosed, calls, withSess, nested, got, 
+                            ok, mytxn, kind, t >>
 
 u3(self) == /\ pc[self] = "u3"
             /\ stack' = [stack EXCEPT ![self] = << [ procedure |->  "Abort",
@@ -599,34 +701,37 @@ u3(self) == /\ pc[self] = "u3"
                                                  \o stack[self]]
             /\ pc' = [pc EXCEPT ![self] = "a1"]
             /\ UNCHANGED << emu, smu, avail, held, etxn, alive, stxn, starting, 
-                            ended, version, panicked, calls, withSess, nested, 
-                            got, ok, mytxn, kind, t >>
+                            ended, version, panicked, stmu, created, 
+                            registered, sclosed, calls, withSess, nested, got, 
+                            ok, mytxn, kind, t >>
 
 u0(self) == /\ pc[self] = "u0"
             /\ t' = [t EXCEPT ![self] = stxn]
             /\ Assert(smu = self, 
-                      "Failure of assertion at line 32, column 19 of macro called at line 99, column 20.")
+                      "Failure of assertion at line 38, column 19 of macro called at line 105, column 20.")
             /\ smu' = NoProc
             /\ pc' = [pc EXCEPT ![self] = "u1"]
             /\ UNCHANGED << emu, avail, held, etxn, alive, stxn, starting, 
-                            ended, version, panicked, calls, stack, withSess, 
+                            ended, version, panicked, stmu, created, 
+                            registered, sclosed, calls, stack, withSess, 
                             nested, got, ok, mytxn, kind >>
 
 s1(self) == /\ pc[self] = "s1"
             /\ IF ended \/ stxn # NoProc \/ starting
                   THEN /\ Assert(smu = self, 
-                                 "Failure of assertion at line 32, column 19 of macro called at line 110, column 49.")
+                                 "Failure of assertion at line 38, column 19 of macro called at line 116, column 49.")
                        /\ smu' = NoProc
                        /\ pc' = [pc EXCEPT ![self] = "loop"]
                        /\ UNCHANGED starting
                   ELSE /\ starting' = TRUE
                        /\ Assert(smu = self, 
-                                 "Failure of assertion at line 32, column 19 of macro called at line 112, column 27.")
+                                 "Failure of assertion at line 38, column 19 of macro called at line 118, column 27.")
                        /\ smu' = NoProc
                        /\ pc' = [pc EXCEPT ![self] = "s2"]
             /\ UNCHANGED << emu, avail, held, etxn, alive, stxn, ended, 
-                            version, panicked, calls, stack, withSess, nested, 
-                            got, ok, mytxn, kind, t >>
+                            version, panicked, stmu, created, registered, 
+                            sclosed, calls, stack, withSess, nested, got, ok, 
+                            mytxn, kind, t >>
 
 s2(self) == /\ pc[self] = "s2"
             /\ /\ stack' = [stack EXCEPT ![self] = << [ procedure |->  "Begin",
@@ -640,22 +745,23 @@ s2(self) == /\ pc[self] = "s2"
             /\ got' = [got EXCEPT ![self] = FALSE]
             /\ pc' = [pc EXCEPT ![self] = "b0"]
             /\ UNCHANGED << emu, smu, avail, held, etxn, alive, stxn, starting, 
-                            ended, version, panicked, calls, ok, mytxn, kind, 
-                            t >>
+                            ended, version, panicked, stmu, created, 
+                            registered, sclosed, calls, ok, mytxn, kind, t >>
 
 s3(self) == /\ pc[self] = "s3"
             /\ smu = NoProc
             /\ smu' = self
             /\ pc' = [pc EXCEPT ![self] = "s4"]
             /\ UNCHANGED << emu, avail, held, etxn, alive, stxn, starting, 
-                            ended, version, panicked, calls, stack, withSess, 
+                            ended, version, panicked, stmu, created, 
+                            registered, sclosed, calls, stack, withSess, 
                             nested, got, ok, mytxn, kind, t >>
 
 s4(self) == /\ pc[self] = "s4"
             /\ starting' = FALSE
             /\ IF ~ok[self]
                   THEN /\ Assert(smu = self, 
-                                 "Failure of assertion at line 32, column 19 of macro called at line 116, column 20.")
+                                 "Failure of assertion at line 38, column 19 of macro called at line 122, column 20.")
                        /\ smu' = NoProc
                        /\ pc' = [pc EXCEPT ![self] = "loop"]
                        /\ stxn' = stxn
@@ -664,12 +770,13 @@ s4(self) == /\ pc[self] = "s4"
                                   /\ UNCHANGED << smu, stxn >>
                              ELSE /\ stxn' = mytxn[self]
                                   /\ Assert(smu = self, 
-                                            "Failure of assertion at line 32, column 19 of macro called at line 120, column 31.")
+                                            "Failure of assertion at line 38, column 19 of macro called at line 126, column 31.")
                                   /\ smu' = NoProc
                                   /\ pc' = [pc EXCEPT ![self] = "loop"]
             /\ UNCHANGED << emu, avail, held, etxn, alive, ended, version, 
-                            panicked, calls, stack, withSess, nested, got, ok, 
-                            mytxn, kind, t >>
+                            panicked, stmu, created, registered, sclosed, 
+                            calls, stack, withSess, nested, got, ok, mytxn, 
+                            kind, t >>
 
 s5(self) == /\ pc[self] = "s5"
             /\ stack' = [stack EXCEPT ![self] = << [ procedure |->  "Abort",
@@ -677,22 +784,24 @@ s5(self) == /\ pc[self] = "s5"
                                                  \o stack[self]]
             /\ pc' = [pc EXCEPT ![self] = "a1"]
             /\ UNCHANGED << emu, smu, avail, held, etxn, alive, stxn, starting, 
-                            ended, version, panicked, calls, withSess, nested, 
-                            got, ok, mytxn, kind, t >>
+                            ended, version, panicked, stmu, created, 
+                            registered, sclosed, calls, withSess, nested, got, 
+                            ok, mytxn, kind, t >>
 
 s6(self) == /\ pc[self] = "s6"
             /\ Assert(smu = self, 
-                      "Failure of assertion at line 32, column 19 of macro called at line 119, column 13.")
+                      "Failure of assertion at line 38, column 19 of macro called at line 125, column 13.")
             /\ smu' = NoProc
             /\ pc' = [pc EXCEPT ![self] = "loop"]
             /\ UNCHANGED << emu, avail, held, etxn, alive, stxn, starting, 
-                            ended, version, panicked, calls, stack, withSess, 
+                            ended, version, panicked, stmu, created, 
+                            registered, sclosed, calls, stack, withSess, 
                             nested, got, ok, mytxn, kind, t >>
 
 sc1(self) == /\ pc[self] = "sc1"
              /\ IF ended \/ stxn = NoProc
                    THEN /\ Assert(smu = self, 
-                                  "Failure of assertion at line 32, column 19 of macro called at line 124, column 38.")
+                                  "Failure of assertion at line 38, column 19 of macro called at line 130, column 38.")
                         /\ smu' = NoProc
                         /\ pc' = [pc EXCEPT ![self] = "loop"]
                         /\ UNCHANGED << stxn, mytxn >>
@@ -701,8 +810,9 @@ sc1(self) == /\ pc[self] = "sc1"
                         /\ pc' = [pc EXCEPT ![self] = "sc2"]
                         /\ smu' = smu
              /\ UNCHANGED << emu, avail, held, etxn, alive, starting, ended, 
-                             version, panicked, calls, stack, withSess, nested, 
-                             got, ok, kind, t >>
+                             version, panicked, stmu, created, registered, 
+                             sclosed, calls, stack, withSess, nested, got, ok, 
+                             kind, t >>
 
 sc2(self) == /\ pc[self] = "sc2"
              /\ stack' = [stack EXCEPT ![self] = << [ procedure |->  "Commit",
@@ -710,22 +820,24 @@ sc2(self) == /\ pc[self] = "sc2"
                                                   \o stack[self]]
              /\ pc' = [pc EXCEPT ![self] = "c1"]
              /\ UNCHANGED << emu, smu, avail, held, etxn, alive, stxn, 
-                             starting, ended, version, panicked, calls, 
-                             withSess, nested, got, ok, mytxn, kind, t >>
+                             starting, ended, version, panicked, stmu, created, 
+                             registered, sclosed, calls, withSess, nested, got, 
+                             ok, mytxn, kind, t >>
 
 sc3(self) == /\ pc[self] = "sc3"
              /\ Assert(smu = self, 
-                       "Failure of assertion at line 32, column 19 of macro called at line 127, column 10.")
+                       "Failure of assertion at line 38, column 19 of macro called at line 133, column 10.")
              /\ smu' = NoProc
              /\ pc' = [pc EXCEPT ![self] = "loop"]
              /\ UNCHANGED << emu, avail, held, etxn, alive, stxn, starting, 
-                             ended, version, panicked, calls, stack, withSess, 
+                             ended, version, panicked, stmu, created, 
+                             registered, sclosed, calls, stack, withSess, 
                              nested, got, ok, mytxn, kind, t >>
 
 sa1(self) == /\ pc[self] = "sa1"
              /\ IF ended \/ stxn = NoProc
                    THEN /\ Assert(smu = self, 
-                                  "Failure of assertion at line 32, column 19 of macro called at line 130, column 38.")
+                                  "Failure of assertion at line 38, column 19 of macro called at line 136, column 38.")
                         /\ smu' = NoProc
                         /\ pc' = [pc EXCEPT ![self] = "loop"]
                         /\ mytxn' = mytxn
@@ -733,7 +845,8 @@ sa1(self) == /\ pc[self] = "sa1"
                         /\ pc' = [pc EXCEPT ![self] = "sa2"]
                         /\ smu' = smu
              /\ UNCHANGED << emu, avail, held, etxn, alive, stxn, starting, 
-                             ended, version, panicked, calls, stack, withSess, 
+                             ended, version, panicked, stmu, created, 
+                             registered, sclosed, calls, stack, withSess, 
                              nested, got, ok, kind, t >>
 
 sa2(self) == /\ pc[self] = "sa2"
@@ -742,39 +855,201 @@ sa2(self) == /\ pc[self] = "sa2"
                                                   \o stack[self]]
              /\ pc' = [pc EXCEPT ![self] = "a1"]
              /\ UNCHANGED << emu, smu, avail, held, etxn, alive, stxn, 
-                             starting, ended, version, panicked, calls, 
-                             withSess, nested, got, ok, mytxn, kind, t >>
+                             starting, ended, version, panicked, stmu, created, 
+                             registered, sclosed, calls, withSess, nested, got, 
+                             ok, mytxn, kind, t >>
 
 sa3(self) == /\ pc[self] = "sa3"
              /\ stxn' = NoProc
              /\ Assert(smu = self, 
-                       "Failure of assertion at line 32, column 19 of macro called at line 133, column 26.")
+                       "Failure of assertion at line 38, column 19 of macro called at line 139, column 26.")
              /\ smu' = NoProc
              /\ pc' = [pc EXCEPT ![self] = "loop"]
              /\ UNCHANGED << emu, avail, held, etxn, alive, starting, ended, 
-                             version, panicked, calls, stack, withSess, nested, 
-                             got, ok, mytxn, kind, t >>
+                             version, panicked, stmu, created, registered, 
+                             sclosed, calls, stack, withSess, nested, got, ok, 
+                             mytxn, kind, t >>
+
+se1(self) == /\ pc[self] = "se1"
+             /\ IF ended
+                   THEN /\ Assert(smu = self, 
+                                  "Failure of assertion at line 38, column 19 of macro called at line 143, column 21.")
+                        /\ smu' = NoProc
+                        /\ pc' = [pc EXCEPT ![self] = "loop"]
+                        /\ UNCHANGED << ended, mytxn >>
+                   ELSE /\ IF stxn = NoProc
+                              THEN /\ ended' = TRUE
+                                   /\ Assert(smu = self, 
+                                             "Failure of assertion at line 38, column 19 of macro called at line 144, column 49.")
+                                   /\ smu' = NoProc
+                                   /\ pc' = [pc EXCEPT ![self] = "loop"]
+                                   /\ mytxn' = mytxn
+                              ELSE /\ mytxn' = [mytxn EXCEPT ![self] = stxn]
+                                   /\ pc' = [pc EXCEPT ![self] = "se2"]
+                                   /\ UNCHANGED << smu, ended >>
+             /\ UNCHANGED << emu, avail, held, etxn, alive, stxn, starting, 
+                             version, panicked, stmu, created, registered, 
+                             sclosed, calls, stack, withSess, nested, got, ok, 
+                             kind, t >>
+
+se2(self) == /\ pc[self] = "se2"
+             /\ stack' = [stack EXCEPT ![self] = << [ procedure |->  "Abort",
+                                                      pc        |->  "se3" ] >>
+                                                  \o stack[self]]
+             /\ pc' = [pc EXCEPT ![self] = "a1"]
+             /\ UNCHANGED << emu, smu, avail, held, etxn, alive, stxn, 
+                             starting, ended, version, panicked, stmu, created, 
+                             registered, sclosed, calls, withSess, nested, got, 
+                             ok, mytxn, kind, t >>
+
+se3(self) == /\ pc[self] = "se3"
+             /\ stxn' = NoProc
+             /\ ended' = TRUE
+             /\ Assert(smu = self, 
+                       "Failure of assertion at line 38, column 19 of macro called at line 147, column 41.")
+             /\ smu' = NoProc
+             /\ pc' = [pc EXCEPT ![self] = "loop"]
+             /\ UNCHANGED << emu, avail, held, etxn, alive, starting, version, 
+                             panicked, stmu, created, registered, sclosed, 
+                             calls, stack, withSess, nested, got, ok, mytxn, 
+                             kind, t >>
+
+w1(self) == /\ pc[self] = "w1"
+            /\ IF alive /\ ~created
+                  THEN /\ created' = TRUE
+                       /\ registered' = TRUE
+                  ELSE /\ TRUE
+                       /\ UNCHANGED << created, registered >>
+            /\ Assert(emu = self, 
+                      "Failure of assertion at line 38, column 19 of macro called at line 152, column 7.")
+            /\ emu' = NoProc
+            /\ pc' = [pc EXCEPT ![self] = "loop"]
+            /\ UNCHANGED << smu, avail, held, etxn, alive, stxn, starting, 
+                            ended, version, panicked, stmu, sclosed, calls, 
+                            stack, withSess, nested, got, ok, mytxn, kind, t >>
+
+n1(self) == /\ pc[self] = "n1"
+            /\ IF sclosed
+                  THEN /\ Assert(stmu = self, 
+                                 "Failure of assertion at line 38, column 19 of macro called at line 157, column 22.")
+                       /\ stmu' = NoProc
+                       /\ pc' = [pc EXCEPT ![self] = "loop"]
+                       /\ emu' = emu
+                  ELSE /\ emu = NoProc
+                       /\ emu' = self
+                       /\ pc' = [pc EXCEPT ![self] = "n2"]
+                       /\ stmu' = stmu
+            /\ UNCHANGED << smu, avail, held, etxn, alive, stxn, starting, 
+                            ended, version, panicked, created, registered, 
+                            sclosed, calls, stack, withSess, nested, got, ok, 
+                            mytxn, kind, t >>
+
+n2(self) == /\ pc[self] = "n2"
+            /\ Assert(emu = self, 
+                      "Failure of assertion at line 38, column 19 of macro called at line 160, column 9.")
+            /\ emu' = NoProc
+            /\ pc' = [pc EXCEPT ![self] = "n3"]
+            /\ UNCHANGED << smu, avail, held, etxn, alive, stxn, starting, 
+                            ended, version, panicked, stmu, created, 
+                            registered, sclosed, calls, stack, withSess, 
+                            nested, got, ok, mytxn, kind, t >>
+
+n3(self) == /\ pc[self] = "n3"
+            /\ Assert(stmu = self, 
+                      "Failure of assertion at line 38, column 19 of macro called at line 161, column 9.")
+            /\ stmu' = NoProc
+            /\ pc' = [pc EXCEPT ![self] = "loop"]
+            /\ UNCHANGED << emu, smu, avail, held, etxn, alive, stxn, starting, 
+                            ended, version, panicked, created, registered, 
+                            sclosed, calls, stack, withSess, nested, got, ok, 
+                            mytxn, kind, t >>
 
 cl1(self) == /\ pc[self] = "cl1"
              /\ IF ~alive
                    THEN /\ Assert(emu = self, 
-                                  "Failure of assertion at line 32, column 19 of macro called at line 137, column 22.")
+                                  "Failure of assertion at line 38, column 19 of macro called at line 176, column 22.")
                         /\ emu' = NoProc
-                        /\ alive' = alive
+                        /\ pc' = [pc EXCEPT ![self] = "loop"]
+                        /\ UNCHANGED << alive, t >>
                    ELSE /\ alive' = FALSE
+                        /\ t' = [t EXCEPT ![self] = IF registered THEN self ELSE NoProc]
                         /\ Assert(emu = self, 
-                                  "Failure of assertion at line 32, column 19 of macro called at line 137, column 60.")
+                                  "Failure of assertion at line 38, column 19 of macro called at line 178, column 68.")
                         /\ emu' = NoProc
-             /\ pc' = [pc EXCEPT ![self] = "loop"]
+                        /\ pc' = [pc EXCEPT ![self] = "cl2"]
              /\ UNCHANGED << smu, avail, held, etxn, stxn, starting, ended, 
-                             version, panicked, calls, stack, withSess, nested, 
-                             got, ok, mytxn, kind, t >>
+                             version, panicked, stmu, created, registered, 
+                             sclosed, calls, stack, withSess, nested, got, ok, 
+                             mytxn, kind >>
+
+cl2(self) == /\ pc[self] = "cl2"
+             /\ IF t[self] # NoProc
+                   THEN /\ stmu = NoProc
+                        /\ stmu' = self
+                        /\ pc' = [pc EXCEPT ![self] = "cl3"]
+                   ELSE /\ pc' = [pc EXCEPT ![self] = "loop"]
+                        /\ stmu' = stmu
+             /\ UNCHANGED << emu, smu, avail, held, etxn, alive, stxn, 
+                             starting, ended, version, panicked, created, 
+                             registered, sclosed, calls, stack, withSess, 
+                             nested, got, ok, mytxn, kind, t >>
+
+cl3(self) == /\ pc[self] = "cl3"
+             /\ sclosed' = TRUE
+             /\ Assert(stmu = self, 
+                       "Failure of assertion at line 38, column 19 of macro called at line 181, column 29.")
+             /\ stmu' = NoProc
+             /\ pc' = [pc EXCEPT ![self] = "loop"]
+             /\ UNCHANGED << emu, smu, avail, held, etxn, alive, stxn, 
+                             starting, ended, version, panicked, created, 
+                             registered, calls, stack, withSess, nested, got, 
+                             ok, mytxn, kind, t >>
+
+k1(self) == /\ pc[self] = "k1"
+            /\ IF sclosed
+                  THEN /\ Assert(stmu = self, 
+                                 "Failure of assertion at line 38, column 19 of macro called at line 167, column 22.")
+                       /\ stmu' = NoProc
+                       /\ pc' = [pc EXCEPT ![self] = "loop"]
+                       /\ emu' = emu
+                  ELSE /\ emu = NoProc
+                       /\ emu' = self
+                       /\ pc' = [pc EXCEPT ![self] = "k2"]
+                       /\ stmu' = stmu
+            /\ UNCHANGED << smu, avail, held, etxn, alive, stxn, starting, 
+                            ended, version, panicked, created, registered, 
+                            sclosed, calls, stack, withSess, nested, got, ok, 
+                            mytxn, kind, t >>
+
+k2(self) == /\ pc[self] = "k2"
+            /\ registered' = FALSE
+            /\ Assert(emu = self, 
+                      "Failure of assertion at line 38, column 19 of macro called at line 170, column 30.")
+            /\ emu' = NoProc
+            /\ pc' = [pc EXCEPT ![self] = "k3"]
+            /\ UNCHANGED << smu, avail, held, etxn, alive, stxn, starting, 
+                            ended, version, panicked, stmu, created, sclosed, 
+                            calls, stack, withSess, nested, got, ok, mytxn, 
+                            kind, t >>
+
+k3(self) == /\ pc[self] = "k3"
+            /\ sclosed' = TRUE
+            /\ Assert(stmu = self, 
+                      "Failure of assertion at line 38, column 19 of macro called at line 171, column 26.")
+            /\ stmu' = NoProc
+            /\ pc' = [pc EXCEPT ![self] = "loop"]
+            /\ UNCHANGED << emu, smu, avail, held, etxn, alive, stxn, starting, 
+                            ended, version, panicked, created, registered, 
+                            calls, stack, withSess, nested, got, ok, mytxn, 
+                            kind, t >>
 
 P(self) == loop(self) \/ disp(self) \/ d1(self) \/ d2(self) \/ u1(self)
               \/ u2(self) \/ u3(self) \/ u0(self) \/ s1(self) \/ s2(self)
               \/ s3(self) \/ s4(self) \/ s5(self) \/ s6(self) \/ sc1(self)
               \/ sc2(self) \/ sc3(self) \/ sa1(self) \/ sa2(self)
-              \/ sa3(self) \/ cl1(self)
+              \/ sa3(self) \/ se1(self) \/ se2(self) \/ se3(self)
+              \/ w1(self) \/ n1(self) \/ n2(self) \/ n3(self) \/ cl1(self)
+              \/ cl2(self) \/ cl3(self) \/ k1(self) \/ k2(self) \/ k3(self)
 
 (* Allow infinite stuttering to prevent deadlock on termination. *)
 Terminating == /\ \A self \in ProcSet: pc[self] = "Done"
@@ -789,4 +1064,8 @@ Spec == Init /\ [][Next]_vars
 Termination == <>(\A self \in ProcSet: pc[self] = "Done")
 
 \* END TRANSLATION
+
+(* when every call has returned the writer slot is free, unless a session still holds its open transaction *)
+DoneFree == (\A p \in Procs : pc[p] = "Done") => (~alive \/ avail = 1 \/ (stxn # NoProc /\ ~ended))
+
 =============================================================================
